@@ -1310,6 +1310,14 @@ class Frame:
                 if r is not NotImplemented:
                     return r
             return BoundMethod(obj, a)
+        from .lib import ListItemProbe
+        if isinstance(obj, ListItemProbe):
+            # y[0] of a cat-abstracted list: a tensor item (or the k-tuple of tensors of an item); its number of rows is
+            # not known, its trailing dimensions are those of the cat view
+            lst = obj.lst
+            if a == 'shape' and lst.tuple_kind is None:
+                return tuple([O.fresh_int('item_rows')] + list(lst.views[0].shape[1:]))
+            raise Unsupported("attribute %s of an abstract list item" % a)
         if isinstance(obj, (list, dict, str, tuple, SStr, CatList, StackList, set, KeyedLists, KeyedListRef)):
             return BoundMethod(obj, a)
         if isinstance(obj, slice):
@@ -1367,6 +1375,12 @@ class Frame:
             k = O.simp(key)
             if isinstance(k, (int, slice)):
                 return base[k]
+        from .lib import ListItemProbe
+        if isinstance(base, ListItemProbe) and base.lst.tuple_kind is not None:
+            # y[0][j] of an abstract list of k-tuples: the j-th component of an item (a tensor)
+            k = O.simp(key)
+            if isinstance(k, int) and -len(base.lst.views) <= k < len(base.lst.views):
+                return ListItemProbe(type(base.lst)(base.lst.count, [base.lst.views[k]]))
         raise Unsupported("subscript of %r" % (type(base),))
 
     def ev_ListComp(self, e):
